@@ -833,6 +833,14 @@ func runC04(cfg *vh.Config) error {
 			nProps = r.Range(11, 30)
 			res.Count("object-with-more-than-10-properties")
 		}
+		if u == 0 {
+			genAST = false
+			env = theEnumZ
+			kind = "object"
+			props = pinnedC04()
+			nProps = 0
+			res.Count("unit-pinned")
+		}
 		for i, n := 0, nProps; i < n; i++ {
 			gd := genProp04(r, propName(r, i), env)
 			if refused(gd.Class) {
